@@ -183,6 +183,8 @@ class NestedQueryPostprocessingTransformation(QueryPostprocessingTransformation)
 
     def apply(self, rule: SigmaRule | SigmaCorrelationRule, query: Any) -> Any:
         super().apply(rule, query)
+        # what the nested items did for earlier rules is not part of this rule's processing
+        self._nested_pipeline.applied_ids = set()
         query = self._nested_pipeline.postprocess_query(rule, query)
         if self._pipeline is not None:
             self._pipeline.applied_ids.update(self._nested_pipeline.applied_ids)
